@@ -258,6 +258,8 @@ class Sched:
         p.killed = True
         for t in self.threads:
             if t.proc is p:
+                if not t.done:
+                    t.end_step = self.steps
                 t.done = True
         self.rec('proc-killed', p.name)
 
@@ -380,6 +382,8 @@ class Thread:
             S.thread_excs.append((st.role, repr(e), traceback.format_exc()[-1500:]))
             S.rec('thread-exception', st.role, repr(e)[:200])
         finally:
+            if not st.done:
+                st.end_step = S.steps
             st.done = True
             if not S.abort:
                 S.rec('thread-end', st.role)
